@@ -2,46 +2,62 @@ PROP = dict(
     title="Authorisation is enforced on every route a message can take",
     design_ref="DESIGN.md section 8, C17",
     technique="Coq proof of an invariant (by induction over the history) of a routing model of server.go parameterised "
-              "by the permission relation: publish path (wildcard / $SYS refusal, write check, retain, fan-out), "
-              "delivery path (read check at delivery time: live, retained replay, resend to a resumed session), "
-              "subscribe path, will paths (CONNECT validation, sendLWT, delayed wills), inline client; model tied to "
+              "by the permission relation: publish path (wildcard / $SYS refusal, write check, QoS 2 packet-id check, "
+              "topic-alias resolution after the checks, retain, fan-out), delivery path (share groups with a member "
+              "oracle, No-Local, read check at delivery time: live, retained replay, resend to a resumed or taken-over "
+              "session), subscribe path (plain and $share filters), will paths (CONNECT validation, sendLWT, delayed "
+              "wills, the will of a connection that is taken over), session takeover and expiry, inline client; model tied to "
               "the real broker by differential execution of generated histories under random permission tables "
               "installed through an ACL hook",
-    level_text="Theorems for ALL permission relations, matching relations, filter-validity predicates and ALL histories "
-               "from the empty broker: every delivery is to a client that may read the topic (C17_read); everything "
+    level_text="Theorems for ALL permission relations, matching relations, filter-validity / shared-filter predicates, "
+               "share-group member choices and ALL histories from the empty broker (connects incl. takeover of a live "
+               "connection, DISCONNECT with/without will, network drops, QoS 0-2 publishes with PUBREL and "
+               "retransmission, topic aliases, plain and shared subscriptions, No-Local, inline publishes, will "
+               "ticks, session expiry): every delivery is to a client that may read the topic, also the member a "
+               "share group chose (C17_read); everything "
                "delivered, retained, queued for an offline session or pending as a delayed will that stems from a "
-               "non-inline client was published with write permission on a valid non-$SYS topic name (C17_write); "
+               "non-inline client was published with write permission on a valid non-$SYS topic name, and every topic "
+               "alias of every connection is bound to a topic its client may write: no bypass through an alias "
+               "(C17_write); "
                "denied filters are answered 0x87/0x80, the index only ever holds valid permitted filters and every "
-               "delivery rests on one (C17_sub_refused); a client publish to $SYS changes nothing (C17_sys); a CONNECT "
+               "delivery rests on one whose effective filter (behind $share/<group>/) matches the topic; the ACL is asked "
+               "about the filter string as sent, share prefix included, as processSubscribe does (C17_sub_refused); a client publish to $SYS changes nothing (C17_sys); a CONNECT "
                "with an invalid will topic is refused and every stored will has a valid topic (C17_will_topic_valid).  "
                "The verdict on the code is given by Coq monitors over what the real broker delivered and retained "
                "(the first payload byte names the sender).",
     level_note="Trusted: Coq kernel, extraction, OCaml driver, Go broker harness, mochi's decoder for the broker's "
                "output, the verif-tag life-cycle snapshot (topic index, client subscription maps, retained store).  "
                "Modelled not verified: permissions are a function of the client id, the topic/filter string and the "
-               "direction, constant over a history; no shared subscriptions, no No-Local, no takeover of a live "
-               "connection, no session expiry, subscriptions at QoS 0/1 with every delivery acknowledged at once; "
-               "restored subscriptions (storage hooks, finding C17-3) are outside this model.  The model is that of "
+               "direction, constant over a history; which member a share group picks is an oracle (the engine searches "
+               "the member choices for one that explains the observation; share-group members use clean sessions so "
+               "that the choice stays observable); a takeover is the harness' deterministic schedule (new attach "
+               "first, old teardown and will second); outbound QoS 1/2 deliveries are acknowledged at once; "
+               "the clients' own packet ids are kept clear of those the broker allocates (C10); UNSUBSCRIBE is "
+               "not modelled; restored subscriptions (storage hooks, finding C17-3) are outside this model.  The model is that of "
                "the repaired code (fix 411d180); Findings/FixedC17.v keeps the pre-fix will path with witnesses.  "
-               "The engine subinvalid exercises the server-level clause of C30 (invalid filter: 0x8F / 0x80, nothing "
-               "created) on the same model: lemmas subinvalid_code, subinvalid_creates_nothing in Auth/AclProofs.v.",
+               "The engine subinvalid (run under C30) exercises the server-level clause of C30 on the same model: lemmas subinvalid_code, subinvalid_creates_nothing in Auth/AclProofs.v.",
     engines=[dict(hx="auth")],
     theorems=["C17_read", "C17_write", "C17_sub_refused", "C17_sys", "C17_will_topic_valid"],
     model_files="coq/Auth/Acl.v",
-    rule="auth: random permission table over 4 client ids x 22 topic/filter strings x read/write (density 40-80 %), "
-         "histories of 20-40 operations: CONNECT v3/v4/v5 clean or persistent with wills on allowed / denied / $SYS / "
-         "wildcard topics (retain on/off, QoS 0/1, delayed for v5), DISCONNECT, network drop, PUBLISH QoS 0-2 retain "
-         "on/off on 4 topics + $SYS + wildcard, SUBSCRIBE with 1-2 filters (wildcards covering denied topics, denied "
-         "and invalid filters), inline publishes, will ticks; at the end every subscriber resumes or reconnects and "
-         "subscribes to #, a/#, d/x (retained replay and resend against read permission); obscure-not-authorized "
-         "on 1/4; quick 700 / thorough 20000 histories.  subinvalid: 24 invalid filters x MQTT 3/3.1.1/5 first, then "
-         "random mixes of invalid and valid filters with publishes in between; quick 300 / thorough 8000.  "
-         "non-trivial = the history has a will, a subscribe or a publish; distinct = distinct case lines",
+    rule="auth: random permission table over 6 client ids (2 publishers, 2 subscribers, 2 share-group members) x 27 "
+         "topic/filter strings (incl. the empty topic, invalid and $share filters) x read/write (density 40-80 %), "
+         "histories of 20-40 operations: CONNECT v3/v4/v5 clean or persistent, also over a live connection "
+         "(takeover), with wills on allowed / denied / $SYS / wildcard topics (retain on/off, QoS 0/1, delayed "
+         "for v5), DISCONNECT 0x00 / 0x04, network drop, session expiry, PUBLISH QoS 0-2 retain on/off on 4 topics + "
+         "$SYS + wildcard, with topic alias 1-2 (binding, re-binding to an often denied topic, alias-only packets "
+         "incl. never bound), explicit PUBREL (known / unknown id) and retransmission of an unreleased QoS 2 "
+         "publish, SUBSCRIBE with 1-2 filters at QoS 0-2 (wildcards covering denied topics, denied and invalid "
+         "filters, No-Local, $share filters of two groups whose members have different read permissions), inline "
+         "publishes, will ticks; at the end every subscriber resumes or reconnects and subscribes to #, a/#, d/x "
+         "(retained replay and resend against read permission); obscure-not-authorized on 1/4; quick 700 / thorough "
+         "20000 histories.  non-trivial = the history has a will, a subscribe or a publish; distinct = distinct case lines",
     modelled="server.go processPublish (topic check, write check, retain, ack, fan-out), publishToSubscribers / "
-             "publishToClient (read check, offline in-flight), processSubscribe (codes, creation), "
-             "publishRetainedToClient, validateConnect (will topic), sendLWT, sendDelayedLWT, inheritClientSession + "
-             "ResendInflightMessages (resume), attachClient's end-of-connection block, Server.Publish (inline)",
+             "publishToClient (read check, No-Local, offline in-flight), Subscribers.SelectShared / MergeSharedSelected, "
+             "processSubscribe (codes incl. 0x82, creation), publishRetainedToClient, validateConnect (will topic), "
+             "sendLWT, sendDelayedLWT (incl. its wiping of the current connection's will), inheritClientSession + "
+             "ResendInflightMessages (resume, takeover), clearExpiredClients, processPubrel, "
+             "InboundTopicAliases.Set, attachClient's end-of-connection block, Server.Publish (inline)",
     assumptions=["the permission relation is constant over a history and depends on the client id only",
-                 "a client id is connected at most once at a time (no takeover of a live connection)",
+                 "at a takeover the new connection attaches before the old one runs its teardown (harness schedule)",
                  "filter validity and matching are the specifications of C30 / C01 (valid_filter_spec, topic_matches)"],
 )
